@@ -106,4 +106,4 @@ def parse(html_text):
 
 def norm(s):
     """the report shows blanks as en-spaces and tabs as 8 blanks"""
-    return s.replace(' ', ' ')
+    return s.replace('\u2002', ' ')
